@@ -577,8 +577,30 @@ func (vc *VC) applyContract(fr *Frame, instr ssa.Instruction, spec *FuncSpec, na
 		vc.dynCallee = nil
 	}
 	pkg := vc.eng.pkgByPath(spec.Pkg)
+	// a generic callee's contract names its own type parameters: bind them to this call's type arguments
+	var targs map[string]types.Type
+	if callee != nil && callee.Origin() != nil && len(callee.TypeArgs()) > 0 {
+		o := callee.Origin()
+		var names []string
+		if rp := o.Signature.RecvTypeParams(); rp != nil {
+			for i := 0; i < rp.Len(); i++ {
+				names = append(names, rp.At(i).Obj().Name())
+			}
+		}
+		if tp := o.Signature.TypeParams(); tp != nil {
+			for i := 0; i < tp.Len(); i++ {
+				names = append(names, tp.At(i).Obj().Name())
+			}
+		}
+		if len(names) == len(callee.TypeArgs()) {
+			targs = map[string]types.Type{}
+			for i, n := range names {
+				targs[n] = callee.TypeArgs()[i]
+			}
+		}
+	}
 	mkEnv := func(cur, old *State, extra map[string]Val) *SpecEnv {
-		env := &SpecEnv{vc: vc, fr: fr, pkg: pkg, st: cur, old: old, vars: map[string]Val{}}
+		env := &SpecEnv{vc: vc, fr: fr, pkg: pkg, st: cur, old: old, vars: map[string]Val{}, targs: targs}
 		for k, v := range cenvVars {
 			env.vars[k] = v
 		}
@@ -647,6 +669,20 @@ func (vc *VC) applyContract(fr *Frame, instr ssa.Instruction, spec *FuncSpec, na
 	}
 	if spec.FreshRet && res.T != "" {
 		vc.assume(st, fmt.Sprintf("(> %s %s)", res.T, vc.get(pre, vc.nextComp())))
+	}
+	if spec.DetFn != "" && res.T != "" {
+		if sf := vc.eng.specs.Specs[spec.DetFn]; sf != nil && sf.Body == nil && len(sf.Params) == len(args) {
+			var aes []Expr
+			env := mkEnv(st, pre, results)
+			for i := range args {
+				aes = append(aes, &EIdent{Name: fmt.Sprintf("arg%d", i)})
+			}
+			r := vc.applySpecFun(env, sf, aes, nil)
+			vc.assume(st, fmt.Sprintf("(= %s %s)", res.T, r.T))
+			vc.note("ASSUMED: " + name + " is a deterministic function of its arguments (its result is written " + spec.DetFn + "(...))")
+		} else {
+			vc.specErr("function %s: no uninterpreted spec function of %d arguments", spec.DetFn, len(args))
+		}
 	}
 	for _, c := range spec.Ensures {
 		// a postcondition that mentions the callee's own local variables is checked in the callee only;
@@ -798,6 +834,19 @@ func (vc *VC) locsOf(env *SpecEnv, e Expr) []Loc {
 				// allfields(T.f): whole field array
 				if sel, ok := x.Args[0].(*ESel); ok {
 					t := vc.resolveType(env, exprName(sel.X))
+					// a generic type named without arguments: the instance over the current function's own type
+					// parameters of the same names (Node means Node[TK, TV] inside a method of Btree[TK, TV])
+					if n, isN := t.(*types.Named); isN && n.TypeParams().Len() > 0 && n.TypeArgs().Len() == 0 {
+						var names []string
+						for i := 0; i < n.TypeParams().Len(); i++ {
+							names = append(names, n.TypeParams().At(i).Obj().Name())
+						}
+						nf := len(vc.fatal)
+						if it := vc.resolveType(env, exprName(sel.X)+"["+strings.Join(names, ",")+"]"); it != nil {
+							t = it
+						}
+						vc.fatal = vc.fatal[:nf]
+					}
 					if st, ok2 := isStruct(t); ok2 && t != nil {
 						if i, _ := findField(st, sel.Name); i >= 0 {
 							return []Loc{{Comp: vc.fieldComp(t, i)}}
@@ -1195,6 +1244,15 @@ func (vc *VC) coarseComp(spec *FuncSpec, m Expr) string {
 	// typed resolution needs the callee's parameter types
 	fn := vc.eng.findFunc(spec)
 	if fn != nil {
+		// the contract of a generic function names its own type parameters
+		env.targs = map[string]types.Type{}
+		for _, l := range []*types.TypeParamList{fn.Signature.RecvTypeParams(), fn.Signature.TypeParams()} {
+			if l != nil {
+				for i := 0; i < l.Len(); i++ {
+					env.targs[l.At(i).Obj().Name()] = l.At(i)
+				}
+			}
+		}
 		st := &State{pc: "true", heap: map[string]string{}}
 		for _, p := range fn.Params {
 			env.vars[p.Name()] = vc.freshVal(st, p.Type(), "coarse."+p.Name())
